@@ -481,8 +481,27 @@ class SelfModel:
         try:
             return _class_member(self._mini, self._cls, item, inst=self)
         except AttributeError:
-            raise MiniError(f"`{self._cls.name}` instance has no attribute "
-                            f"`{item}` in the model")
+            pass
+        # an instance attribute the constructor (or `reset`) initialises
+        # with a plain value: the state of a freshly constructed object
+        for mname in ("__init__", "reset"):
+            for st in self._cls.body:
+                if not (isinstance(st, ast.FunctionDef)
+                        and st.name == mname):
+                    continue
+                for n in ast.walk(st):
+                    if isinstance(n, ast.Assign) and any(
+                            isinstance(t, ast.Attribute) and isinstance(
+                                t.value, ast.Name) and t.value.id == "self"
+                            and t.attr == item for t in n.targets):
+                        try:
+                            v = self._mini.expr(n.value, {}, set())
+                        except (MiniError, ModelFault):
+                            continue
+                        self.__dict__[item] = v
+                        return v
+        raise MiniError(f"`{self._cls.name}` instance has no attribute "
+                        f"`{item}` in the model")
 
 
 BUILTINS = {
